@@ -263,6 +263,197 @@ fn monitor_page(kind: Kind, so: &StaticObs, id: u32, start_after: Option<u64>, l
     }
 }
 
+// ======================= the admin's ledger =======================
+// What the admin set, stage by stage: identity (name), window, price, limits and the MEMBER
+// LIST given for that stage.  It is updated only by accepted operations with the documented
+// meaning (AddStage appends; RemoveStage(i) drops stage i and every later one;
+// UpdateStageConfig edits in place; member edits touch the named stage).  Every answer of
+// the contract is held against it, so an implementation that re-orders, re-keys or mixes up
+// stages is seen even when its own queries agree with each other.
+
+#[derive(Clone, Debug)]
+struct LStage {
+    st: St,
+    members: Vec<(u64, u64)>, // ascending by address
+    root: Option<u64>,        // Merkle: id of the root string given for this position
+}
+#[derive(Clone, Debug)]
+struct Ledger {
+    kind: Kind,
+    stages: Vec<LStage>,
+}
+fn put_member(l: &mut Vec<(u64, u64)>, a: u64, v: u64, overwrite: bool) {
+    match l.binary_search_by_key(&a, |x| x.0) {
+        Ok(i) => {
+            if overwrite {
+                l[i].1 = v;
+            }
+        }
+        Err(i) => l.insert(i, (a, v)),
+    }
+}
+impl Ledger {
+    fn val(&self, c: u32) -> u64 {
+        if self.kind == Kind::Flex { c as u64 } else { 1 }
+    }
+    fn created(kind: Kind, inst: &Inst, hashes: &mut Ids) -> Ledger {
+        let mut l = Ledger { kind, stages: vec![] };
+        for (k, st) in inst.stages.iter().enumerate() {
+            let mut members = vec![];
+            if kind != Kind::Merkle {
+                for (a, c) in inst.members.get(k).cloned().unwrap_or_default() {
+                    // a repeated address is one member; the flex kind keeps the last count given
+                    put_member(&mut members, a, l.val(c), true);
+                }
+            }
+            let root = if kind == Kind::Merkle { inst.roots.get(k).map(|r| hashes.id(&r.string().to_lowercase())) } else { None };
+            l.stages.push(LStage { st: st.clone(), members, root });
+        }
+        l
+    }
+    /// an accepted operation; returns a violation when the documented rule refuses it
+    fn apply(&mut self, op: &Op) -> Option<(String, String)> {
+        let mut viol = None;
+        match op {
+            Op::AddStage { st, members, .. } => {
+                if let Some(last) = self.stages.last() {
+                    if st.start < last.st.end {
+                        viol = Some((
+                            format!("C13:{}:add-stage-out-of-order-accepted", self.kind.name()),
+                            format!("add_stage of window [{}, {}] was accepted although the last stage ends at {} (a stage is appended and never starts before the previous one ends)", st.start, st.end, last.st.end),
+                        ));
+                    }
+                }
+                let mut ms = vec![];
+                if self.kind != Kind::Merkle {
+                    for (a, c) in members {
+                        put_member(&mut ms, *a, self.val(*c), false);
+                    }
+                }
+                self.stages.push(LStage { st: st.clone(), members: ms, root: None });
+            }
+            Op::RemoveStage { id, .. } => self.stages.truncate(*id as usize),
+            Op::Update { id, name, start, end, price, pal, mcl, .. } => {
+                if let Some(ls) = self.stages.get_mut(*id as usize) {
+                    if let Some(n) = name { ls.st.name = *n; }
+                    if let Some(t) = start { ls.st.start = *t; }
+                    if let Some(t) = end { ls.st.end = *t; }
+                    if let Some((d, a)) = price { ls.st.denom = *d; ls.st.price = *a; }
+                    if let Some(p) = pal { ls.st.pal = *p; }
+                    if let Some(m) = mcl { ls.st.mcl = Some(*m); }
+                }
+            }
+            Op::AddMembers { id, members, .. } => {
+                let kind_val: Vec<(u64, u64)> = members.iter().map(|(a, c)| (*a, self.val(*c))).collect();
+                if let Some(ls) = self.stages.get_mut(*id as usize) {
+                    for (a, v) in kind_val {
+                        put_member(&mut ls.members, a, v, false);
+                    }
+                }
+            }
+            Op::RemoveMembers { id, members, .. } => {
+                if let Some(ls) = self.stages.get_mut(*id as usize) {
+                    ls.members.retain(|(a, _)| !members.contains(a));
+                }
+            }
+            Op::Time(_) | Op::Sweep | Op::Page { .. } => {}
+        }
+        viol
+    }
+    fn roots_complete(&self) -> bool {
+        self.kind != Kind::Merkle || self.stages.iter().all(|s| s.root.is_some())
+    }
+    fn resp(&self, i: usize) -> StageResp {
+        let s = &self.stages[i];
+        (i as u64, s.st.clone(), if self.kind == Kind::Merkle { s.root.unwrap_or(u64::MAX) } else { s.members.len() as u64 })
+    }
+    /// the ledger in the shape of the static answers (for the clock monitors)
+    fn as_obs(&self) -> StaticObs {
+        let stages = if self.stages.is_empty() || !self.roots_complete() {
+            Err("no stage list".to_string())
+        } else {
+            Ok((0..self.stages.len()).map(|i| self.resp(i)).collect())
+        };
+        StaticObs {
+            stages,
+            stage_k: vec![],
+            members_k: (0..4).map(|j| Ok(self.stages.get(j).map(|s| s.members.clone()).unwrap_or_default())).collect(),
+            all_info: vec![],
+            stage_info: vec![],
+        }
+    }
+}
+
+/// every static answer against the ledger
+fn monitor_ledger(l: &Ledger, so: &StaticObs, probes: &[Probe], out: &mut Vec<(String, String)>) {
+    let kind = l.kind;
+    let skey = format!("C13:{}:ledger-stages", kind.name());
+    let mkey = format!("C13:{}:ledger-members", kind.name());
+    let n = l.stages.len();
+    // Stages / Stage(i)
+    if l.roots_complete() {
+        let want: Vec<StageResp> = (0..n).map(|i| l.resp(i)).collect();
+        match &so.stages {
+            Ok(got) if *got == want => {}
+            Err(_) if n == 0 => {}
+            other => out.push((skey.clone(), format!("Stages answers {:?}; the admin set {:?}", other.as_ref().map(|v| v.iter().map(|x| (x.0, x.1.name, x.1.start, x.1.end, x.2)).collect::<Vec<_>>()), want.iter().map(|x| (x.0, x.1.name, x.1.start, x.1.end, x.2)).collect::<Vec<_>>()))),
+        }
+        for i in 0..4usize {
+            match (&so.stage_k[i], i < n) {
+                (Ok(got), true) if *got == want[i] => {}
+                (Err(_), false) => {}
+                (other, _) => out.push((skey.clone(), format!("Stage({}) answers {:?}; the admin set {:?}", i, other, want.get(i)))),
+            }
+        }
+    }
+    if kind == Kind::Merkle {
+        return;
+    }
+    // Members(stage): exactly the addresses listed for that stage
+    for j in 0..4usize {
+        let want = l.stages.get(j).map(|s| s.members.clone()).unwrap_or_default();
+        match &so.members_k[j] {
+            Ok(got) if *got == want => {}
+            other => {
+                let got = other.clone().unwrap_or_default();
+                let foreign: Vec<u64> = got.iter().filter(|x| !want.iter().any(|y| y.0 == x.0)).map(|x| x.0).collect();
+                let missing: Vec<u64> = want.iter().filter(|x| !got.iter().any(|y| y.0 == x.0)).map(|x| x.0).collect();
+                out.push((mkey.clone(), format!("Members(stage {}) lists {} entries, the admin listed {} for it (not listed for it: {:?}; missing: {:?})", j, got.len(), want.len(), foreign.iter().take(4).collect::<Vec<_>>(), missing.iter().take(4).collect::<Vec<_>>())));
+            }
+        }
+    }
+    // StageMemberInfo / AllStageMemberInfo of the tracked addresses
+    for (pi, p) in probes.iter().enumerate() {
+        let info = |i: usize| -> Info {
+            let stored = l.stages.get(i).and_then(|s| s.members.iter().find(|x| x.0 == p.member).map(|x| x.1));
+            let limit = match kind {
+                Kind::Flex => stored.unwrap_or(0),
+                _ => l.stages.get(i).map(|s| s.st.pal as u64).unwrap_or(0),
+            };
+            (i as u64, stored.is_some(), limit)
+        };
+        if let Some(r) = so.all_info.get(pi) {
+            let want: Vec<Info> = (0..n).map(|i| info(i)).collect();
+            if r.as_ref().ok() != Some(&want) {
+                out.push((mkey.clone(), format!("AllStageMemberInfo({}) = {:?}; by the admin's lists {:?}", p.member, r, want)));
+            }
+        }
+        if let Some(rs) = so.stage_info.get(pi) {
+            for (i, r) in rs.iter().enumerate() {
+                let ok = match (r, i < n, kind) {
+                    (Ok(got), true, _) => *got == info(i),
+                    (Ok(got), false, _) => !got.1, // a stage that does not exist has no member
+                    (Err(_), false, _) => true,
+                    (Err(_), true, _) => false,
+                };
+                if !ok {
+                    out.push((mkey.clone(), format!("StageMemberInfo(stage {}, {}) = {:?}; by the admin's lists {:?}", i, p.member, r, if i < n { Some(info(i)) } else { None })));
+                }
+            }
+        }
+    }
+}
+
 // ======================= running one case =======================
 
 fn instants(so: &StaticObs, now: u64) -> Vec<u64> {
@@ -292,7 +483,9 @@ fn run_case(c: &Case) -> Outcome {
     o.distinct.push(format!("{} {} {}", k.coq(), c.now0, inst_coq));
     let mut steps: Vec<String> = vec![];
     if r.is_ok() {
-        let mut cur = w.static_obs();
+        let mut cur = w.static_obs(&c.probes);
+        let mut ledger = Ledger::created(k, &c.inst, &mut w.hashes);
+        monitor_ledger(&ledger, &cur, &c.probes, &mut o.violations);
         monitor_shape(k, &cur, true, &mut o.violations);
         monitor_first_future(k, &cur, c.now0, "instantiate", &mut o.violations);
         for op in &c.ops {
@@ -316,13 +509,21 @@ fn run_case(c: &Case) -> Outcome {
                 }
                 Op::Sweep => {
                     steps.push(cur.coq());
+                    if k != Kind::Merkle {
+                        steps.push(cur.info_coq());
+                    }
                     let now = w.now();
                     let mut groups: Vec<(Vec<u64>, String)> = vec![];
-                    for t in instants(&cur, now) {
+                    // the clock answers are held against the admin's ledger, at the boundary
+                    // instants of the ledger's windows and of the windows the contract reports
+                    let lobs = ledger.as_obs();
+                    let mut ts: BTreeSet<u64> = instants(&cur, now).into_iter().collect();
+                    ts.extend(instants(&lobs, now));
+                    for t in ts {
                         w.set_time(t);
                         let to = w.time_obs(&c.probes);
                         o.impl_steps += 1;
-                        monitor_time(k, &cur, &to, &c.probes, &mut w.hashes, &mut o.violations);
+                        monitor_time(k, &lobs, &to, &c.probes, &mut w.hashes, &mut o.violations);
                         let body = to.body_coq();
                         o.distinct.push(format!("{} {:?} {} {}", k.coq(), cur.stages.as_ref().ok(), t, body));
                         if o.sample.is_empty() && to.active.is_some() {
@@ -353,7 +554,11 @@ fn run_case(c: &Case) -> Outcome {
                     }
                     steps.push(term);
                     if r.is_ok() {
-                        let after = w.static_obs();
+                        let after = w.static_obs(&c.probes);
+                        if let Some(v) = ledger.apply(op) {
+                            o.violations.push(v);
+                        }
+                        monitor_ledger(&ledger, &after, &c.probes, &mut o.violations);
                         monitor_shape(k, &after, false, &mut o.violations);
                         match op {
                             Op::AddStage { members, .. } => {
@@ -759,6 +964,72 @@ fn gen_exec_probes(kind: Kind, out: &mut Vec<Case>) {
     out.push(case("update:pal-and-end", kind, gap3(), vec![u, Op::Sweep]));
 }
 
+/// add_stage with every placement of the new window relative to the existing ones, each
+/// followed by the membership queries inside every stage's window (the Sweep), and
+/// update_stage_config moving a window across a neighbour; on all three kinds
+fn gen_order_probes(kind: Kind, out: &mut Vec<Case>) {
+    let two = || mk_inst(kind, windows(kind, &[(30, 40), (60, 70)]), default_members(2));
+    let one = || mk_inst(kind, windows(kind, &[(30, 40)]), default_members(1));
+    let three = || mk_inst(kind, windows(kind, &[(30, 40), (60, 70), (90, 100)]), default_members(3));
+    let newm = vec![(120u64, 3u32), (121, 4)];
+    let mut probes = default_probes(kind);
+    if kind != Kind::Merkle {
+        probes.push(Probe { member: 120, proof: vec![] });
+        probes.push(Probe { member: 121, proof: vec![] });
+    }
+    let placements: Vec<(&str, i64, i64)> = vec![
+        ("after-last", 80, 90),
+        ("touching-last", 70, 80),
+        ("overlapping-last", 65, 75),
+        ("inside-last", 62, 68),
+        ("between-two", 45, 55),
+        ("between-touching-both", 40, 60),
+        ("before-first-future", 10, 20),
+        ("before-first-touching", 20, 30),
+        ("before-first-starting-now", 0, 20),
+        ("in-the-past", -20, -10),
+        ("identical-to-last", 60, 70),
+        ("identical-to-first", 30, 40),
+        ("covering-all", 5, 95),
+    ];
+    for (name, a, b) in &placements {
+        for (bn, base) in [("two", two()), ("one", one())] {
+            let mut c = case(&format!("order:add-{}-to-{}", name, bn), kind, base, vec![
+                Op::AddStage { sender: ADMIN, st: mk_stage(kind, 5, at(*a), at(*b)), members: newm.clone() },
+                Op::Sweep,
+                // whatever happened, removing the LAST stage must take exactly that stage's members
+                Op::RemoveStage { sender: ADMIN, id: if bn == "two" { 2 } else { 1 } },
+                Op::Sweep,
+            ]);
+            c.probes = probes.clone();
+            out.push(c);
+        }
+    }
+    // the same while the first stage is already running (add_stage is then refused anyway)
+    let mut c = case("order:add-between-while-first-runs", kind, two(), vec![
+        Op::Time(at(35)), Op::AddStage { sender: ADMIN, st: mk_stage(kind, 5, at(45), at(55)), members: newm.clone() }, Op::Sweep]);
+    c.probes = probes.clone();
+    out.push(c);
+    // update_stage_config that would move a stage across its neighbour
+    let moves: Vec<(&str, u32, i64, i64)> = vec![
+        ("first-past-second", 0, 75, 85),
+        ("first-past-third", 0, 105, 115),
+        ("second-before-first", 1, 10, 20),
+        ("second-past-third", 1, 105, 115),
+        ("third-before-first", 2, 10, 20),
+        ("third-between-first-and-second", 2, 45, 55),
+        ("second-onto-third", 1, 90, 100),
+        ("second-within-gap", 1, 45, 85),
+    ];
+    for (name, id, a, b) in moves {
+        let mut u = upd(ADMIN, id);
+        if let Op::Update { start, end, .. } = &mut u { *start = Some(at(a)); *end = Some(at(b)); }
+        let mut c = case(&format!("order:update-{}", name), kind, three(), vec![u, Op::Sweep]);
+        c.probes = probes.clone();
+        out.push(c);
+    }
+}
+
 /// 3-stage worlds whose windows come from one of the classic arrangements
 fn gen_arrangements(kind: Kind, out: &mut Vec<Case>) {
     let arr: Vec<(&str, Vec<(i64, i64)>)> = vec![
@@ -930,7 +1201,7 @@ fn gen_history(rng: &mut Rng, kind: Kind, idx: usize) -> Case {
     let nops = rng.range(5, 9);
     let mut next_name = 10u64;
     for _ in 0..nops {
-        let so = w.static_obs();
+        let so = w.static_obs(&[]);
         let cur: Vec<St> = so.stages.clone().map(|l| l.into_iter().map(|x| x.1).collect()).unwrap_or_default();
         let now = w.now();
         let valid = rng.chance(3, 4);
@@ -1019,6 +1290,9 @@ fn gen_cases(a: &Args) -> Vec<Case> {
     let mut cases = vec![];
     for kind in Kind::all() {
         gen_arrangements(kind, &mut cases);
+    }
+    for kind in Kind::all() {
+        gen_order_probes(kind, &mut cases);
     }
     for kind in Kind::all() {
         gen_inst_probes(kind, &lits, &mut cases);
